@@ -57,11 +57,14 @@ Record overrides := { ov_mailboxes : option (list str); ov_from : option str;
                       ov_to : option (list str); ov_subject : option str }.
 
 Inductive payload :=
-  | PEof                                           (* connection ended inside the block *)
+  | PEof                                           (* connection ended (EOF, read error) inside the block *)
+  | PIdle                                          (* the read deadline passed inside the block *)
   | PBlock (body : str) (hdr : option hdrinfo) (hook : option overrides).
       (* un-stuffed bytes; None = header block unparsable *)
 
-Inductive item := L (l : pline) | B (p : payload) | Eof.
+(** [Eof]: the client closed; [Idle]: the read deadline passed while the session waited for a
+    line; [ConnErr]: any other read error. *)
+Inductive item := L (l : pline) | B (p : payload) | Eof | Idle | ConnErr.
 
 (** One AddMessage call made by Deliver. *)
 Record delivery := {
@@ -199,6 +202,7 @@ Definition step_mail (c : scfg) (s : session) (l : pline) : stepres :=
 Definition step_data (c : scfg) (s : session) (p : payload) : stepres :=
   match p with
   | PEof => Ok (set_st s QUIT) [] []
+  | PIdle => Ok (set_st s QUIT) (one 221) []        (* "221 Idle timeout, bye bye", then QUIT *)
   | PBlock body hdr hook =>
       if (max_bytes c <? Z.of_nat (length body))%Z then Ok (reset s) (one 552) []
       else match hdr with
@@ -219,6 +223,8 @@ Definition step (c : scfg) (s : session) (it : item) : stepres :=
   | DATA, _ => Misfit
   | _, B _ => Misfit
   | _, Eof => Ok (set_st s QUIT) [] []
+  | _, Idle => Ok (set_st s QUIT) (one 221) []      (* "221 Idle timeout, bye bye", loop left *)
+  | _, ConnErr => Ok (set_st s QUIT) (one 221) []   (* "221 Connection error, sorry", loop left *)
   | LOGIN, L _ => Ok (set_st s PASSWORD) (one 334) []
   | PASSWORD, L _ => Ok (set_st s READY) (one 235) []
   | _, L Empty => Ok s (one 500) []
@@ -280,7 +286,7 @@ Fixpoint entitled (c : scfg) (sender : option origin) (hl : str) (acc : list rec
                       | None => [] end
            else []) ++ entitled c sender hl [] rest
       | B (PBlock _ None _) => entitled c sender hl [] rest
-      | B PEof => entitled c sender hl acc rest          (* the connection has ended *)
+      | B PEof | B PIdle => entitled c sender hl acc rest   (* the connection has ended *)
       | _ => entitled c sender hl acc rest
       end
   end.
@@ -324,6 +330,7 @@ Definition reply_ok (e : item * list rline) : bool :=
   | (L _, r) => group_ok (first_code r) r
   | (B (PBlock _ _ _), r) => match r with [(_, false)] => true | _ => false end
   | (B PEof, r) | (Eof, r) => match r with [] => true | _ => false end
+  | (B PIdle, r) | (Idle, r) | (ConnErr, r) => match r with [(221%Z, false)] => true | _ => false end
   end.
 
 (** C06: a block larger than the limit is refused with a 5xx reply and delivers nothing; a MAIL
